@@ -134,6 +134,35 @@ func c16MinLevelLine(c *Ctx, lambda int, scale uint64, n int, moduli []uint64) (
 	return ml, lb, ok
 }
 
+// c16NoWrapLine: GetMinimumLevelForRefresh plus the centred-mask no-wrap condition at the returned level,
+// 2·(n·2^(logBound-1) + 2^msgBits) < Q_minLevel, tied to the Lean model (`noWrapAtMinLevel`).
+func c16NoWrapLine(c *Ctx, lambda int, scale uint64, n int, moduli []uint64, msgBits int) (int, uint, bool, bool) {
+	ml, lb, ok := c16MinLevelLine(c, lambda, scale, n, moduli)
+	eml, elb, eok := c16MinLevelExact(lambda, scale, n, moduli)
+	if !ok || ml != eml || lb != elb || ok != eok {
+		return ml, lb, ok, false
+	}
+	q := big.NewInt(1)
+	for _, m := range moduli[:ml+1] {
+		q.Mul(q, new(big.Int).SetUint64(m))
+	}
+	h := uint(0)
+	if lb > 0 {
+		h = lb - 1
+	}
+	need := new(big.Int).Lsh(big.NewInt(int64(n)), h)
+	need.Add(need, new(big.Int).Lsh(big.NewInt(1), uint(msgBits)))
+	need.Lsh(need, 1)
+	nowrap := need.Cmp(q) < 0
+	tok := 0
+	if nowrap {
+		tok = 1
+	}
+	c.Emit(fmt.Sprintf("ckks_nowrap %d %d %d %s %d", lambda, scale, n, Vec(moduli), msgBits), fmt.Sprintf("%d %d 1 %d", ml, lb, tok))
+	c.Count("ckks_nowrap")
+	return ml, lb, ok, nowrap
+}
+
 func c16CumBits(moduli []uint64, l int) int {
 	q := big.NewInt(1)
 	for _, m := range moduli[:l+1] {
@@ -205,6 +234,8 @@ func c16CKKSSets() []c16CKKSSet {
 			c16NewCKKS("ckks30noP", 5, []int{55, 45}, nil, 30),
 			c16NewCKKS("ckks20", 5, []int{45, 35, 55}, []int{50, 51}, 20),
 			// primes just ABOVE powers of two: the cumulative moduli sit at the low end of a one-bit window
+			// tight chain: 55+40+40+40-bit primes just above the powers of two, scale 2^45 (masks of up to 173 bits)
+			c16NewCKKSFromPrimes("ckksTight", 4, []uint64{c16PrimeAbove(55, 32, 0), c16PrimeAbove(40, 32, 0), c16PrimeAbove(40, 32, 1), c16PrimeAbove(40, 32, 2)}, []uint64{c14Prime(56, 32, 0)}, 45),
 			c16NewCKKSFromPrimes("ckksEdge", 4, []uint64{c16PrimeAbove(50, 32, 0), c16PrimeAbove(31, 32, 0), c16PrimeAbove(40, 32, 0)}, []uint64{c14Prime(56, 32, 0)}, 25),
 		}
 	}
@@ -315,11 +346,41 @@ func c16CKKS(c *Ctx, ns []int) {
 				c.Probe("min_level_holds_masks", fmt.Sprintf("ckks set=%s N=%d lambda=%d window_level=%d minLevel=%d logBound=%d", set.name, n, lambda, l, ml, lb), "C16-ckks-minlevel", detail)
 				if ok && ml <= set.maxQ() {
 					for rep := 0; rep < c.Scale(2, 4); rep++ {
-						c16CKKSRun(c, set, n, ml, set.maxQ(), 3.2, lb, set.cp.LogMaxSlots(), nil, false)
-						c16CKKSRun(c, set, n, ml, set.maxQ(), 3.2, lb, set.cp.LogMaxSlots(), nil, true)
+						c14Guard(c, "C16-harness-panic", "c16CKKSRun", func() { c16CKKSRun(c, set, n, ml, set.maxQ(), 3.2, lb, set.cp.LogMaxSlots(), nil, false) })
+						c14Guard(c, "C16-harness-panic", "c16CKKSRun", func() { c16CKKSRun(c, set, n, ml, set.maxQ(), 3.2, lb, set.cp.LogMaxSlots(), nil, true) })
 					}
 					c.Count("ckks_runs_at_engineered_min_level")
 				}
+			}
+		}
+		// input EXACTLY at the returned minimum level, 1..8 parties, λ chosen so that level l is the minimum level:
+		// logBound + ⌈log2 n⌉ = ⌊log2 Q_l⌋ (the tightest case the function allows)
+		for n := 1; n <= 8; n++ {
+			for l := 0; l <= set.maxQ(); l++ {
+				if !c.Thorough() && l != set.maxQ() && l != n%(set.maxQ()+1) {
+					continue
+				}
+				lambda := c16CumBits(set.q, l) - c16FloorLog2(2*n-1) - set.cp.LogDefaultScale()
+				if lambda < 6 {
+					c.Count("ckks_tight_skipped(lambda<6)")
+					continue
+				}
+				ml, lb, ok, nowrap := c16NoWrapLine(c, lambda, uint64(1)<<uint(set.cp.LogDefaultScale()), n, set.q, set.cp.LogDefaultScale()+5)
+				if !ok || ml != l {
+					c.Count("ckks_tight_level_not_minimal")
+					continue
+				}
+				if !nowrap {
+					// Q_min ≥ n·2^logBound holds, but without room for the message: outside the no-wrap condition
+					c.Count("ckks_tight_level_without_slack_for_the_message")
+					continue
+				}
+				lab := fmt.Sprintf("ckks tight set=%s N=%d level=%d lambda=%d logBound=%d", set.name, n, l, lambda, lb)
+				c14Guard(c, "C16-ckks-tight-run", lab, func() {
+					c14Guard(c, "C16-harness-panic", "c16CKKSRun", func() { c16CKKSRun(c, set, n, ml, set.maxQ(), 3.2, lb, set.cp.LogMaxSlots(), nil, false) })
+					c14Guard(c, "C16-harness-panic", "c16CKKSRun", func() { c16CKKSRun(c, set, n, ml, set.maxQ(), 3.2, lb, set.cp.LogMaxSlots(), nil, true) })
+				})
+				c.Count("ckks_runs_exactly_at_min_level")
 			}
 		}
 		for ni, n := range ns {
@@ -335,24 +396,27 @@ func c16CKKS(c *Ctx, ns []int) {
 				}
 				sigma := []float64{3.2, 25.6}[c.rng.Intn(2)]
 				logSlots := set.cp.LogMaxSlots() - c.rng.Intn(3)
-				c16CKKSRun(c, set, n, lin, set.maxQ(), sigma, logBound, logSlots, nil, false)
-				c16CKKSRun(c, set, n, lin, c.rng.Intn(set.maxQ()+1), sigma, logBound, logSlots, nil, true)
+				c14Guard(c, "C16-harness-panic", "c16CKKSRun", func() { c16CKKSRun(c, set, n, lin, set.maxQ(), sigma, logBound, logSlots, nil, false) })
+				c14Guard(c, "C16-harness-panic", "c16CKKSRun", func() { c16CKKSRun(c, set, n, lin, c.rng.Intn(set.maxQ()+1), sigma, logBound, logSlots, nil, true) })
 				fn := funcs[c.rng.Intn(len(funcs))]
-				c16CKKSRun(c, set, n, lin, set.maxQ(), sigma, logBound, logSlots, &fn, true)
+				c14Guard(c, "C16-harness-panic", "c16CKKSRun", func() { c16CKKSRun(c, set, n, lin, set.maxQ(), sigma, logBound, logSlots, &fn, true) })
 			}
+			_ = 0
 			// output parameters ≠ input parameters (other moduli, other default scale), via the constructor and via WithParams
 			for _, wp := range []bool{false, true} {
 				c16OutSet, c16UseWithParams = c16CKKSOutFor(set), wp
 				lo := c.rng.Intn(c16OutSet.maxQ() + 1)
-				c16CKKSRun(c, set, n, set.maxQ(), lo, 3.2, logBound, set.cp.LogMaxSlots(), nil, true)
+				c14Guard(c, "C16-harness-panic", "c16CKKSRun", func() { c16CKKSRun(c, set, n, set.maxQ(), lo, 3.2, logBound, set.cp.LogMaxSlots(), nil, true) })
 				if c.Thorough() || wp {
 					fn := funcs[c.rng.Intn(len(funcs))]
-					c16CKKSRun(c, set, n, minLevel, c16OutSet.maxQ(), 25.6, logBound, set.cp.LogMaxSlots()-1, &fn, true)
+					c14Guard(c, "C16-harness-panic", "c16CKKSRun", func() {
+						c16CKKSRun(c, set, n, minLevel, c16OutSet.maxQ(), 25.6, logBound, set.cp.LogMaxSlots()-1, &fn, true)
+					})
 				}
 				c16OutSet, c16UseWithParams = nil, false
 			}
 			// a level below the minimum: the mask bound exceeds Q and GenShare must refuse
-			c16CKKSTooLow(c, set, n)
+			c14Guard(c, "C16-harness-panic", "c16CKKSTooLow", func() { c16CKKSTooLow(c, set, n) })
 		}
 	}
 }
@@ -386,6 +450,19 @@ func c16CKKSRun(c *Ctx, set c16CKKSSet, n, lin, lout int, sigma float64, logBoun
 	pt.LogDimensions.Cols = logSlots
 	inScaleLog := set.cp.LogDefaultScale() + []int{0, 0, 3}[c.rng.Intn(3)]
 	pt.Scale = rlwe.NewScale(math.Exp2(float64(inScaleLog)))
+	// the run claims correctness only under the centred-mask no-wrap condition (Lattigo.Props.C16.centred_masks_no_wrap):
+	// 2·(n·2^(logBound-1) + 2^(log scale + 1)) < Q_lin.  GetMinimumLevelForRefresh guarantees n·2^logBound ≤ Q only; for a
+	// power-of-two party count on a chain whose modulus is barely above 2^(logBound+log2 n) there is no room for the message
+	// (wrap probability ≈ message / 2^logBound ≈ 2^-λ per coefficient, by design).
+	{
+		need := new(big.Int).Lsh(big.NewInt(int64(n)), logBound-1)
+		need.Add(need, new(big.Int).Lsh(big.NewInt(1), uint(inScaleLog+1)))
+		need.Lsh(need, 1)
+		if need.Cmp(ringQ.AtLevel(lin).ModulusAtLevel[lin]) >= 0 {
+			c.Count("ckks_run_skipped(outside the no-wrap condition: no slack for the message)")
+			return
+		}
+	}
 	values := make([]complex128, pt.Slots())
 	for i := range values {
 		values[i] = complex(float64(c.rng.Intn(2001)-1000)/1000, float64(c.rng.Intn(2001)-1000)/1000)
@@ -459,6 +536,7 @@ func c16CKKSRun(c *Ctx, set c16CKKSSet, n, lin, lout int, sigma float64, logBoun
 		pub := make([]multiparty.KeySwitchShare, n)
 		sec := make([]multiparty.AdditiveShareBigint, n)
 		rows := make([]string, n)
+		maskRange := ""
 		for i := range e2s {
 			pub[i] = e2s[i].AllocateShare(lin)
 			sec[i] = mpckks.NewAdditiveShare(set.cp, ct.LogSlots())
@@ -467,9 +545,16 @@ func c16CKKSRun(c *Ctx, set c16CKKSSet, n, lin, lout int, sigma float64, logBoun
 				panic(err)
 			}
 			mask := c16Mask(mark, logBound, dslots)
-			allMasks = append(allMasks, mask)
 			if c16BigVec(mask) != c16BigVec(sec[i].Value[:dslots]) {
-				panic("c16: twin ckks mask differs")
+				c.Probe("twin_replay", fmt.Sprintf("ckks mask set=%s party=%d logBound=%d", set.name, i, logBound), "C16-twin-replay", "twin_mask_differs_from_the_protocol's_secret_share")
+				mask = make([]*big.Int, dslots)
+				for j := range mask {
+					mask[j] = new(big.Int).Set(sec[i].Value[j])
+				}
+			}
+			allMasks = append(allMasks, mask)
+			if d := c16MaskStats(sec[i].Value[:dslots], logBound); d != "" && maskRange == "" {
+				maskRange = fmt.Sprintf("party_%d_%s", i, d)
 			}
 			e := c16SampleSigned(params, tE[i], lin, false)
 			c16Record(fmt.Sprintf("ckks_e2s copy=%t sigma=%g", copiedAll[i], sigma),
@@ -478,6 +563,8 @@ func c16CKKSRun(c *Ctx, set c16CKKSSet, n, lin, lout int, sigma float64, logBoun
 			c.Emit(fmt.Sprintf("ckks_e2s %s %s %s %s %s", hdrI, c1, IVec(keys.s[i]), IVec(e), c16BigVec(mask)), rows[i])
 			c.Count("ckks_e2s")
 		}
+		// every mask coefficient lies in the documented centred range [-2^(logBound-1), 2^(logBound-1))
+		c.Probe("mask_range", label, "C16-ckks-mask-range", maskRange)
 		add := func(x, y multiparty.KeySwitchShare) (multiparty.KeySwitchShare, error) {
 			o := e2s[0].AllocateShare(x.Level())
 			err := e2s[0].AggregateShares(x, y, &o)
@@ -552,6 +639,25 @@ func c16CKKSRun(c *Ctx, set c16CKKSSet, n, lin, lout int, sigma float64, logBoun
 			}
 		}
 		c.Probe("e2s_s2e_id", label+" within_noise_bound", "C16-ckks-s2e", detail)
+		// refused calls keep their receivers
+		lab := fmt.Sprintf("ckks set=%s lin=%d lout=%d", set.name, lin, lout)
+		tooBig := uint(params.RingQ().AtLevel(lin).ModulusAtLevel[lin].BitLen() + 1)
+		c14Refused(c, "C16:mpckks.EncToShareProtocol.GenShare", "bound_above_Q", lab,
+			func() string { return c16BigVec(sec[0].Value) + " " + c16PolySnap(pub[0].Value) },
+			func() error { return e2s[0].GenShare(keys.sk[0], tooBig, ct, &sec[0], &pub[0]) })
+		if ol := c16OtherLevel(set.maxQ(), lout); ol >= 0 {
+			crp2 := s2e[0].SampleCRP(ol, crs)
+			c14Refused(c, "C16:mpckks.ShareToEncProtocol.GenShare", "crs_level", lab, func() string { return c16PolySnap(sh[0].Value) },
+				func() error { return s2e[0].GenShare(keys.sk[0], crp2, ct.MetaData, final[0], &sh[0]) })
+			c14Refused(c, "C16:mpckks.ShareToEncProtocol.GetEncryption", "crs_level", lab, func() string { return c16CtSnap(rec) },
+				func() error { return s2e[0].GetEncryption(aggO, crp2, rec) })
+			recvOther := c14RandCt(c, params, 1, ol)
+			c14Refused(c, "C16:mpckks.ShareToEncProtocol.GetEncryption", "receiver_level", lab, func() string { return c16CtSnap(recvOther) },
+				func() error { return s2e[0].GetEncryption(aggO, crp, recvOther) })
+		}
+		deg2 := c14RandCt(c, params, 2, lout)
+		c14Refused(c, "C16:mpckks.ShareToEncProtocol.GetEncryption", "receiver_degree", lab, func() string { return c16CtSnap(deg2) },
+			func() error { return s2e[0].GetEncryption(aggO, crp, deg2) })
 		return
 	}
 
@@ -773,6 +879,92 @@ func c16CKKSRun(c *Ctx, set c16CKKSSet, n, lin, lout int, sigma float64, logBoun
 		return ""
 	})
 	c.Probe(probe, label+" within_precision", key, detail)
+
+	// refused calls keep their receivers (`out` holds the valid refreshed ciphertext)
+	if detail == "" {
+		lab := fmt.Sprintf("ckks set=%s out=%s lin=%d lout=%d", set.name, oset.name, lin, lout)
+		aggSnap := func() string { return c16RefreshSnap(&agg) }
+		shSnap := func() string { return c16RefreshSnap(&shares[0]) }
+		outSnap := func() string { return c16CtSnap(out) }
+		if ol := c16OtherLevel(set.maxQ(), lin); ol >= 0 {
+			bad := protos[0].AllocateShare(ol, lout)
+			c14Refused(c, "C16:mpckks.MaskedLinearTransformationProtocol.AggregateShares", "e2s_level", lab, aggSnap, func() error { return protos[0].AggregateShares(&bad, &shares[0], &agg) })
+		}
+		if ol := c16OtherLevel(oset.maxQ(), lout); ol >= 0 {
+			bad := protos[0].AllocateShare(lin, ol)
+			c14Refused(c, "C16:mpckks.MaskedLinearTransformationProtocol.AggregateShares", "s2e_level", lab, aggSnap, func() error { return protos[0].AggregateShares(&shares[0], &bad, &agg) })
+			crp2 := protos[0].SampleCRP(ol, crs)
+			c14Refused(c, "C16:mpckks.MaskedLinearTransformationProtocol.GenShare", "crs_level", lab, shSnap, func() error {
+				return protos[0].GenShare(keys.sk[0], okeys.sk[0], logBound, ct, crp2, tf, &shares[0])
+			})
+			c14Refused(c, "C16:mpckks.MaskedLinearTransformationProtocol.Transform", "crs_level", lab, outSnap, func() error { return protos[0].Transform(ct.CopyNew(), tf, crp2, agg, out) })
+		}
+		if lin > 0 {
+			low := ct.CopyNew()
+			low.Resize(1, lin-1)
+			c14Refused(c, "C16:mpckks.MaskedLinearTransformationProtocol.GenShare", "ct_below_share_level", lab, shSnap, func() error {
+				return protos[0].GenShare(keys.sk[0], okeys.sk[0], logBound, low, crp, tf, &shares[0])
+			})
+			c14Refused(c, "C16:mpckks.MaskedLinearTransformationProtocol.Transform", "ct_below_share_level", lab, outSnap, func() error { return protos[0].Transform(low, tf, crp, agg, out) })
+		}
+		other := agg
+		other.MetaData.Scale = rlwe.NewScale(12345)
+		c14Refused(c, "C16:mpckks.MaskedLinearTransformationProtocol.Transform", "metadata", lab, outSnap, func() error { return protos[0].Transform(ct.CopyNew(), tf, crp, other, out) })
+		notBatched := ct.CopyNew()
+		notBatched.IsBatched = false
+		dec := &mpckks.MaskedLinearTransformationFunc{Decode: true, Func: func([]*bignum.Complex) {}, Encode: true}
+		aggNB := agg
+		aggNB.MetaData = *notBatched.MetaData
+		c14Refused(c, "C16:mpckks.MaskedLinearTransformationProtocol.GenShare", "decode_non_batched", lab, shSnap, func() error {
+			return protos[0].GenShare(keys.sk[0], okeys.sk[0], logBound, notBatched, crp, dec, &shares[0])
+		})
+		c14Refused(c, "C16:mpckks.MaskedLinearTransformationProtocol.Transform", "decode_non_batched", lab, outSnap, func() error { return protos[0].Transform(notBatched, dec, crp, aggNB, out) })
+	}
+}
+
+// pooled statistics of the real masks (EncToShareProtocol.GenShare's secret shares)
+var c16MaskPool struct{ n, neg, big int }
+
+// c16MaskStats checks the range of one party's mask and feeds the pooled sign / magnitude statistics.
+func c16MaskStats(mask []*big.Int, logBound uint) string {
+	half := new(big.Int).Lsh(big.NewInt(1), logBound-1)
+	quarter := new(big.Int).Rsh(half, 1)
+	lo := new(big.Int).Neg(half)
+	out := ""
+	for j, m := range mask {
+		if m.Cmp(lo) < 0 || m.Cmp(half) >= 0 {
+			if out == "" {
+				out = fmt.Sprintf("coefficient_%d_outside_[-2^%d,2^%d)", j, logBound-1, logBound-1)
+			}
+		}
+		c16MaskPool.n++
+		if m.Sign() < 0 {
+			c16MaskPool.neg++
+		}
+		if m.CmpAbs(quarter) >= 0 {
+			c16MaskPool.big++
+		}
+	}
+	return out
+}
+
+// c16MaskDistributionProbe (statistical, labelled): both signs occur with frequency 1/2 and half of the
+// coefficients use the top bit of the range, within five standard errors.
+func c16MaskDistributionProbe(c *Ctx) {
+	p := c16MaskPool
+	if p.n == 0 {
+		return
+	}
+	tol := 5 * 0.5 / math.Sqrt(float64(p.n))
+	fn, fb := float64(p.neg)/float64(p.n), float64(p.big)/float64(p.n)
+	detail := ""
+	if math.Abs(fn-0.5) > tol {
+		detail = fmt.Sprintf("negative_fraction=%.4f", fn)
+	} else if math.Abs(fb-0.5) > tol {
+		detail = fmt.Sprintf("fraction_with_|M|>=2^(logBound-2)=%.4f", fb)
+	}
+	c.Probe("mask_distribution", fmt.Sprintf("ckks samples=%d negative_ppm=%d large_ppm=%d tol_ppm=%d statistical", p.n, int(fn*1e6), int(fb*1e6), int(tol*1e6)), "C16-ckks-mask-range", detail)
+	c16MaskPool.n, c16MaskPool.neg, c16MaskPool.big = 0, 0, 0
 }
 
 // c16MasksFit: the masked plaintext m − Σ M_i must not wrap modulo Q_level:
